@@ -10,6 +10,7 @@ import (
 	"encoding/json"
 	"fmt"
 	"go/ast"
+	"go/constant"
 	"go/token"
 	"go/types"
 	"os"
@@ -595,4 +596,148 @@ func declsReachableFrom(p *packages.Package, roots ...string) map[*ast.FuncDecl]
 		})
 	}
 	return seen
+}
+
+// ---- finding private functions by what they use ------------------------------------------------
+//
+// Private function names are not stable under refactoring; the exported vocabulary they are written in is. A rule that
+// needs "the function that builds the jsonb_typeof(...) = 'string' test" asks for the function whose body mentions
+// pgsql.FunctionJSONBTypeof and the constant "string", whatever it is called.
+
+// usesObject reports whether n mentions the package-level object (or method/field) called name that is declared in a
+// package whose path ends in pkgSuffix.
+func usesObject(info *types.Info, n ast.Node, pkgSuffix, name string) bool {
+	found := false
+	ast.Inspect(n, func(m ast.Node) bool {
+		if id, ok := m.(*ast.Ident); ok && id.Name == name {
+			if o := info.Uses[id]; o != nil && o.Pkg() != nil && strings.HasSuffix(o.Pkg().Path(), pkgSuffix) {
+				found = true
+			}
+		}
+		return !found
+	})
+	return found
+}
+
+// hasStringConst reports whether n contains a constant expression with the given string value.
+func hasStringConst(info *types.Info, n ast.Node, value string) bool {
+	found := false
+	ast.Inspect(n, func(m ast.Node) bool {
+		if e, ok := m.(ast.Expr); ok {
+			if tv, has := info.Types[e]; has && tv.Value != nil && tv.Value.Kind() == constant.String && constant.StringVal(tv.Value) == value {
+				found = true
+			}
+		}
+		return !found
+	})
+	return found
+}
+
+// declsWhere returns the function declarations of p (with bodies) that satisfy pred, in source order.
+func declsWhere(p *packages.Package, pred func(fd *ast.FuncDecl) bool) []*ast.FuncDecl {
+	var out []*ast.FuncDecl
+	for _, f := range p.Syntax {
+		for _, d := range f.Decls {
+			if fd, ok := d.(*ast.FuncDecl); ok && fd.Body != nil && pred(fd) {
+				out = append(out, fd)
+			}
+		}
+	}
+	sort.Slice(out, func(i, j int) bool { return out[i].Pos() < out[j].Pos() })
+	return out
+}
+
+// bodyWithHelpers returns fd's body followed by the bodies of the same-package functions it calls directly (depth 1):
+// "mentions X" predicates usually should see through one small helper.
+func bodyWithHelpers(p *packages.Package, fd *ast.FuncDecl) []ast.Node {
+	out := []ast.Node{fd.Body}
+	byObj := map[types.Object]*ast.FuncDecl{}
+	for _, f := range p.Syntax {
+		for _, d := range f.Decls {
+			if hd, ok := d.(*ast.FuncDecl); ok && hd.Body != nil {
+				byObj[p.TypesInfo.Defs[hd.Name]] = hd
+			}
+		}
+	}
+	seen := map[*ast.FuncDecl]bool{fd: true}
+	ast.Inspect(fd.Body, func(n ast.Node) bool {
+		if call, ok := n.(*ast.CallExpr); ok {
+			if fn := calleeOf(p.TypesInfo, call); fn != nil && fn.Pkg() == p.Types {
+				if hd := byObj[fn.Origin()]; hd != nil && !seen[hd] {
+					seen[hd] = true
+					out = append(out, hd.Body)
+				}
+			}
+		}
+		return true
+	})
+	return out
+}
+
+// ---- the front end's private anchors, found from the exported ones ----------------------------------------------
+
+// frontendParseFunc: the private function the exported ParseCypher hands the trimmed input to (a call of a same-package
+// function in a return statement of ParseCypher with the same result types); ParseCypher itself when it does the walk.
+func frontendParseFunc(p *packages.Package) *ast.FuncDecl {
+	decls := FuncDecls(p)
+	entry := decls["ParseCypher"]
+	if entry == nil || entry.Body == nil {
+		return decls["parseCypher"]
+	}
+	info := p.TypesInfo
+	entryFn, _ := info.Defs[entry.Name].(*types.Func)
+	var found *ast.FuncDecl
+	ast.Inspect(entry.Body, func(n ast.Node) bool {
+		// a call of a same-package function with ParseCypher's own result types (in a return statement or assigned to
+		// locals that are returned)
+		call, ok := n.(*ast.CallExpr)
+		if !ok {
+			return true
+		}
+		fn := calleeOf(info, call)
+		if fn == nil || fn.Pkg() != p.Types || entryFn == nil {
+			return true
+		}
+		if types.Identical(fn.Type().(*types.Signature).Results(), entryFn.Type().(*types.Signature).Results()) {
+			if fd := decls[declKeyOf(fn)]; fd != nil && fd.Body != nil {
+				found = fd
+			}
+		}
+		return true
+	})
+	if found != nil {
+		return found
+	}
+	return entry
+}
+
+// contextFiltersField: the field of frontend.Context that NewContext fills from its (variadic) parameter.
+func contextFiltersField(p *packages.Package) *types.Var {
+	info := p.TypesInfo
+	nc := FuncDecls(p)["NewContext"]
+	if nc == nil || nc.Body == nil || nc.Type.Params == nil || len(nc.Type.Params.List) != 1 || len(nc.Type.Params.List[0].Names) != 1 {
+		return nil
+	}
+	param := info.Defs[nc.Type.Params.List[0].Names[0]]
+	var field *types.Var
+	ast.Inspect(nc.Body, func(n ast.Node) bool {
+		kv, ok := n.(*ast.KeyValueExpr)
+		if !ok {
+			return true
+		}
+		k, ok1 := kv.Key.(*ast.Ident)
+		v, ok2 := ast.Unparen(kv.Value).(*ast.Ident)
+		if ok1 && ok2 && info.Uses[v] == param {
+			if fv, ok := info.Uses[k].(*types.Var); ok && fv.IsField() {
+				field = fv
+			}
+		}
+		return true
+	})
+	return field
+}
+
+func isFrontendParseFunc(p *packages.Package, fn *types.Func) bool {
+	fd := frontendParseFunc(p)
+	return fd != nil && fn != nil && p.TypesInfo.Defs[fd.Name] == types.Object(fn.Origin())
 }
